@@ -37,6 +37,8 @@ SKELS = [
     dict(name="endgroup-start", text="{[][<]C(N)C[>]; [<]O, [>]CO[]}|gauss(60,30)|", units=["[<]C(N)C[>]"], start="eg"),
     dict(name="two-blocks", text="OCC{[<][<]C(N)C[>][>]}|gauss(100,20)|{[<][<]C(=O)C[>][>]}|flory_schulz(0.1)|[Si]", units=["[<]C(N)C[>]", "[<]C(=O)C[>]"], start=1.0),
     dict(name="two-blocks-connector", text="OCC{[<][<]C(N)C[>][>]}|schulz_zimm(100,80)|CC[Si]CC{[<][<]C(=O)C[>][>]}|log_normal(100,1.1)|[Si]", units=["[<]C(N)C[>]", "[<]C(=O)C[>]"], start=1.0),
+    dict(name="zero-weight-start", text="{[][<]C(N)C[>]; [<|0|][H], [<]F[>]}|gauss(100,20)|CO", units=["[<]C(N)C[>]"], start="eg"),
+    dict(name="telechelic-prefix-twice", text="OCC{[<][<]C(N)C[>][>]}|gauss(100,20)|CCO", units=["[<]C(N)C[>]"], start=1.0),
     dict(name="poisson-block", text="[H]{[<][<]C(N)C[>][>]}|poisson(65)|CO", units=["[<]C(N)C[>]"], start=1.0),
 ]
 
@@ -87,19 +89,41 @@ class CDF:
     pmf = pdf
 
 
-def generate_member(g, mol, ns, skel):
-    """a molecule of the ensemble with ns[b] units in block b, built by the real generator with scripted draws"""
-    from .gendrive import token_reference
+class FirstPossibleRng:
+    """picks the first element of positive probability (optionally a forced index for the very first pick)"""
 
+    def __init__(self, first=None):
+        self.first = first
+        self.k = 0
+
+    def __deepcopy__(self, memo):
+        return self
+
+    def choice(self, a, size=None, replace=True, p=None, **kw):
+        items = list(range(a)) if isinstance(a, int) else list(a)
+        self.k += 1
+        if self.k == 1 and self.first is not None:
+            if self.first >= len(items):
+                raise gendrive.ReplayDone()
+            return items[self.first]
+        if p is None:
+            return items[0]
+        for it, q in zip(items, list(p)):
+            if float(q) > 0:
+                return it
+        raise ValueError("no element of positive probability")
+
+
+def generate_member(g, mol, ns, skel, first=None):
+    """a molecule of the ensemble with ns[b] units in block b, built by the real generator with scripted draws"""
     masses = []
-    bi = 0
     for el in mol._elements:
         if isinstance(el, g.Stochastic):
             masses.append(frag_mass(el.repeat_tokens[0]))
     targets = [(n - 0.5) * m for n, m in zip(ns, masses)]
     gen.install_observers(g, gen.Observer())
     gen.DRAW_FN[0] = gen.scripted_draw(targets)
-    r = mol.generate(rng=FixedRng([0] * 400))
+    r = mol.generate(rng=FirstPossibleRng(first))
     return r.smiles, masses
 
 
@@ -156,9 +180,18 @@ def run_case(case, g, tier, res):
         for (el, f), n, m in zip(cdfs, ns, masses):
             ref = ref * (f.cdf(n * m) - f.cdf((n - 1) * m))
         if isinstance(first, g.Stochastic):
-            # generation: pick a start end group (prob w_e / sum w), grow n units, cap the other end with the only compatible end group.
-            # The molecule O-[unit]n-CO arises from start 'O' (then capped by 'CO') and from start 'CO' (capped by 'O'): P = (w_O + w_CO)/sum = 1
-            ref = ref * 1.0
+            # generation: pick a start end group e with probability w_e / sum w, grow n units, cap the other end. The law of the
+            # molecule sums over the starts that yield it (decided by generating with each start forced and comparing SMILES)
+            pstart = 0.0
+            for i, tok in enumerate(first.end_tokens):
+                try:
+                    smi_i, _ = generate_member(g, g.Molecule(text), ns, skel, first=i)
+                except Exception as e:
+                    core.reraise_if_harness(e)
+                    smi_i = None
+                if smi_i == smi:
+                    pstart = pstart + ws[i] / tot
+            ref = ref * pstart
         # the recorded intervals must be exactly (n m, (n-1) m) per block
         for (el, f), n, m in zip(cdfs, ns, masses):
             args = sorted(set(round(x, 6) for x, _ in f.calls))
